@@ -24,12 +24,13 @@ import (
 
 // Script describes the underlying stream and how its length is declared.
 type Script struct {
-	Body    string `json:"body"`              // "script" | "nil" | "nobody"
-	Len     int    `json:"len"`               // bytes delivered before the terminal condition (for Term "err": the fault offset)
-	Salt    int    `json:"salt,omitempty"`    // selects the byte pattern
-	Chunks  []int  `json:"chunks,omitempty"`  // successive maximal chunk sizes, cycled; 0 = a zero-length read without error
-	Term    string `json:"term,omitempty"`    // "eof" | "err": sticky terminal condition
-	EOFWith bool   `json:"eofWith,omitempty"` // the terminal condition is returned together with the last data
+	Body     string `json:"body"`               // "script" | "nil" | "nobody"
+	Len      int    `json:"len"`                // bytes delivered before the terminal condition (for Term "err": the fault offset)
+	Salt     int    `json:"salt,omitempty"`     // selects the byte pattern
+	Chunks   []int  `json:"chunks,omitempty"`   // successive maximal chunk sizes, cycled; 0 = a zero-length read without error
+	Term     string `json:"term,omitempty"`     // "eof" | "err": sticky terminal condition
+	EOFWith  bool   `json:"eofWith,omitempty"`  // the terminal condition is returned together with the last data
+	CloseErr bool   `json:"closeErr,omitempty"` // the underlying stream's Close returns an error (it is closed all the same)
 	// CL: how the length is declared.
 	//   "absent"   no Content-Length header, ContentLength field -1 (what a server sees for a chunked request)
 	//   "absent0"  no header, field 0 (what a client-side request with an unknown-length reader carries)
@@ -54,6 +55,7 @@ type Case struct {
 
 var errScripted = errors.New("scripted stream failure")
 var errAfterClose = errors.New("scripted stream: read after close")
+var errScriptedClose = errors.New("scripted stream: close failed")
 
 func (s Script) bytes() []byte {
 	b := make([]byte, s.Len)
@@ -82,6 +84,7 @@ type stream struct {
 	ci         int
 	term       error
 	eofWith    bool
+	closeErr   bool
 	closes     int
 	afterClose int // Read calls that reached the stream after it was closed
 	reads      int
@@ -119,7 +122,13 @@ func (s *stream) Read(p []byte) (int, error) {
 	return n, nil
 }
 
-func (s *stream) Close() error { s.closes++; return nil }
+func (s *stream) Close() error {
+	s.closes++
+	if s.closeErr {
+		return errScriptedClose
+	}
+	return nil
+}
 
 // wellFormed rejects cases outside the property's domain (hand-written replay files).
 func (c Case) wellFormed() error {
@@ -198,7 +207,7 @@ func Check(c Case) *kit.Violation {
 	case "script":
 		data = sc.bytes()
 		term = sc.term()
-		st = &stream{data: data, chunks: sc.Chunks, term: term, eofWith: sc.EOFWith}
+		st = &stream{data: data, chunks: sc.Chunks, term: term, eofWith: sc.EOFWith, closeErr: sc.CloseErr}
 		req.Body = st
 	case "nobody":
 		req.Body = http.NoBody
@@ -388,6 +397,7 @@ func genScript(t *rapid.T) Script {
 		}
 		s.Term = rapid.SampledFrom([]string{"eof", "eof", "err"}).Draw(t, "term")
 		s.EOFWith = rapid.Bool().Draw(t, "eofWith")
+		s.CloseErr = rapid.IntRange(0, 3).Draw(t, "closeErr") == 0
 	}
 	if s.declaredPositive() {
 		switch rapid.IntRange(0, 2).Draw(t, "clval") {
@@ -505,6 +515,9 @@ func Classify(c Case) (bool, []string) {
 			labels = append(labels, "len=4096")
 		default:
 			labels = append(labels, "len>4096 (multi-buffer)")
+		}
+		if s.CloseErr {
+			labels = append(labels, "underlying Close fails")
 		}
 		if s.EOFWith {
 			labels = append(labels, "data+terminal together")
